@@ -206,6 +206,7 @@ def prepare_attributes(attrs, dyn_attributes, i18n_attributes,
 
     attributes = []
     normalized = {}
+    exact = {}
 
     for attribute in attrs:
         name = attribute['name']
@@ -223,9 +224,13 @@ def prepare_attributes(attrs, dyn_attributes, i18n_attributes,
         ))
 
         normalized[name.lower()] = len(attributes) - 1
+        exact.setdefault(name, len(attributes) - 1)
 
     for name, expr in dyn_attributes:
-        index = normalized.get(name.lower()) if name else None
+        # Names are matched irrespective of case, but an attribute
+        # spelled the same way comes first.
+        index = exact.get(
+            name, normalized.get(name.lower())) if name else None
 
         if index is not None:
             _, text, quote, space, eq, _ = attributes[index]
